@@ -50,7 +50,7 @@ theorem dfltVal_bin (f : FieldDesc) (b : Bytes) (h : f.dflt = .bin b) : dfltVal 
 /-- the generator hands the declared default through unchanged (and gives proto3 strings the shared empty string) -/
 theorem genField_default (o : POpts) (f : PField) :
     (genField o f).d.dflt = (match f.dflt with
-      | .none => if o.syntax3 && f.type == .string then Dflt.emptyStr else Dflt.none
+      | .none => if o.syntax3 && f.type == .string && !f.stringAsBytes then Dflt.emptyStr else Dflt.none
       | d => d) := by
   unfold genField genDflt; rfl
 
